@@ -252,7 +252,7 @@ func followRule(r *node, ctx *Ctx) (err error) {
 				ch := &r.child[i]
 				if ch.typ == typeCase {
 					if ch.caseStaticL {
-						ok = ctx.cmp(r.switchArg, opEq, ch.caseL)
+						ok = ctx.cmp(r.switchArg, opEq, bytealg.Trim(ch.caseL, quotes))
 					} else {
 						ctx.get(ch.caseL, nil)
 						if ctx.Err == nil {
@@ -305,10 +305,10 @@ func followRule(r *node, ctx *Ctx) (err error) {
 						}
 						if sr {
 							// Right side is static.
-							ok = ctx.cmp(ch.caseL, ch.caseOp, ch.caseR)
+							ok = ctx.cmp(ch.caseL, ch.caseOp, bytealg.Trim(ch.caseR, quotes))
 						} else if sl {
 							// Left side is static.
-							ok = ctx.cmp(ch.caseR, ch.caseOp.Swap(), ch.caseL)
+							ok = ctx.cmp(ch.caseR, ch.caseOp.Swap(), bytealg.Trim(ch.caseL, quotes))
 						} else {
 							// Both sides aren't static.
 							ctx.get(ch.caseR, nil)
